@@ -40,6 +40,7 @@ import (
 //	[.., +nMetaSingle)    in-meta/<kind>  each simple middleware alone / with Retry / with such a user middleware
 //	[.., +nMetaEnum)      in-meta/chain  the 689 enumerated chains that contain CorrelationID, 0..2 user middlewares
 //	[.., +nMetaRandom)    in-meta/random  chains with repetition (several CorrelationID layers), up to two Retry layers, 0..2 user middlewares
+//	[.., +nDelayLow)      delay-lowmax    DelayOnError alone / under Retry with MaxInterval below InitialInterval (first of all the zero value), delaylow.go
 const (
 	chainsPerCase  = 8
 	singleKinds    = 8
@@ -66,6 +67,8 @@ type layout struct {
 	nMetaCorr, nMetaSingle, nMetaEnum, nMetaRandom       int
 	metaPerKind                                          int
 	metaScriptsCorr, metaScriptsSingle, metaScriptsChain int
+
+	nDelayLow int
 }
 
 func layoutFor(tier string) layout {
@@ -105,6 +108,8 @@ func layoutFor(tier string) layout {
 		metaScriptsCorr:   vlib.TierN(tier, 6, 20),
 		metaScriptsSingle: vlib.TierN(tier, 6, 20),
 		metaScriptsChain:  vlib.TierN(tier, 4, 60),
+
+		nDelayLow: vlib.TierN(tier, 64, 8000),
 	}
 	l.nMetaSingle = singleKinds * l.metaPerKind
 	l.nSingle = singleKinds * l.singlePerKind
@@ -118,7 +123,8 @@ func (l layout) total() int {
 	return l.nSingle + l.nEnum + l.nRandom + l.nDelay + l.nThrottle + l.nArrivals + l.nCtxSingle + l.nCtxEnum + l.nCtxRandom +
 		l.nValSingle + l.nValEnum + l.nConcSingle + l.nConcChain +
 		l.nErrSingle + l.nErrCompose + l.nErrEnum + l.nErrNilCause +
-		l.nMetaCorr + l.nMetaSingle + l.nMetaEnum + l.nMetaRandom
+		l.nMetaCorr + l.nMetaSingle + l.nMetaEnum + l.nMetaRandom +
+		l.nDelayLow
 }
 
 func init() {
@@ -187,13 +193,19 @@ func init() {
 			"after the chain the consumed message's metadata is exactly what the handler / UserMW layers left plus the delay keys of DelayOnError (input-mutated, delay-value, delay-untouched); outputs, error, attempt count, ack, context as in all chain classes. " +
 			"Counters inmeta_corr_layer_id_changed_during_call (CorrelationID layers whose message's id differed between entry and return of the inner call), inmeta_corr_copied_id_set_during_call (outputs that got an id that was put on the message during the call), " +
 			"inmeta_corr_id_removed_during_call_not_copied, inmeta_handler_<action>_<before|after>, inmeta_handler_stamped_output, inmeta_user_<pre|post>_<action>. An in-meta case is non-trivial when an effect was exercised and at least one metadata action was made. " +
+			"delay-lowmax (4 configurations per case): DelayOnError with 0 <= MaxInterval < InitialInterval, which delay-seq and the chain classes never generate: MaxInterval == 0, the field left unset (50%), uniform in (0, Initial) (30%), Initial-1ns (10%), both intervals 0 (10%); real-valued Multiplier in [1,3]. " +
+			"Consecutive failures of one message come from redelivery (60%: 6..16 calls of DelayOnError>handler, 80% failing, same object / Copy() / new message carrying the metadata) or from Retry>DelayOnError>handler (40%: MaxRetries 1..5, 2..5 calls, the handler fails its first f attempts and records the delay metadata it sees on entry of every attempt; a call that fails altogether is redelivered and continues the count). " +
+			"Judged: after the k-th consecutive failure, k >= 2, the delay is min(Initial*Mult^(k-1),Max) = MaxInterval (delay-value; 0s when the field is unset); successes leave the metadata untouched (delay-untouched); outputs, error, attempt count unchanged (outputs-identity, error-identity, retry-attempts). " +
+			"For k = 1 the statement (min(Initial,Max) = Max) and the godoc ('InitialInterval is the first interval between retries') differ when Max < Initial; both values are accepted and counted (lowmax_first_is_max / lowmax_first_is_initial), anything else is a delay-value violation. " +
+			"Counters lowmax_cfg_<shape>, lowmax_zero_cap_checked (failures k >= 2 judged against a cap of 0). A delay-lowmax case is non-trivial when some message failed at least twice in a row. " +
 			"A case is non-trivial when at least one documented effect was exercised (id copied, panic recovered, error ignored, ack-at-start seen, deadline seen, delay applied, retry made, rate wait seen); " +
 			"distinct = distinct (chains, parameters, script shapes, observed results) hashes.",
 		Assumptions: []string{
 			"IgnoreErrors: 'listed' = the text of the error's pkg/errors Cause (Cause() methods only) equals the text of a list entry, as the unchanged source decides it; in all but the errshapes classes %w wrappers around listed errors are not generated",
 			"errshapes classes: list entries are plain errors without a Cause method (a listed error that is itself a pkg/errors wrapper is never matched by the source's rule; not generated); errors of a Cause()-capable type whose Cause() returns nil are not generated " +
 				"(the pinned IgnoreErrors dereferenced the nil Cause: fixed in ff39474; class errshapes/nil-cause, clause ignore-nil-cause); Cause chains are finite; Error methods do not panic",
-			"DelayOnError configurations have InitialInterval <= MaxInterval and InitialInterval >= 100ms (so ns truncation stays far below 1 ppm); after a success the next message is a fresh one",
+			"DelayOnError configurations have InitialInterval <= MaxInterval and InitialInterval >= 100ms (so ns truncation stays far below 1 ppm) in all classes but delay-lowmax; after a success the next message is a fresh one",
+			"delay-lowmax: 0 <= MaxInterval < InitialInterval (or both 0); negative intervals are not generated; the delay after the FIRST failure is accepted as InitialInterval (godoc) or min(Initial, Max) (statement), see Rule",
 			"Timeouts that may expire (2..6 ms, handler waits for the deadline) are only generated when no Timeout is outside a Retry; all other Timeouts are >= 1 min",
 			"the circuit breaker stays closed (default settings up to 5 handler calls, otherwise ReadyToTrip=never); a state change makes the case inconclusive",
 			"Throttle: only lower bounds on start times are judged (no upper bounds on durations); the reference for 'configured rate' is the time.Ticker the middleware documents itself with (one start per duration/count, at most one tick saved while idle); a clock-read-to-channel-send gap inside one runtime timer firing of more than one period, twice within one window, is assumed not to happen",
@@ -296,5 +308,9 @@ func run(e *vlib.Env) vlib.Result {
 	if i < l.nMetaEnum {
 		return runMetaEnum(e, i, l.metaScriptsChain)
 	}
-	return runMetaRandom(e)
+	i -= l.nMetaEnum
+	if i < l.nMetaRandom {
+		return runMetaRandom(e)
+	}
+	return runDelayLowMax(e)
 }
